@@ -414,7 +414,7 @@ class SymWorld:
             raise Inconclusive("setup bind failed: %r" % ex)
 
     # ---- pre-state ----
-    def make_bundle(self, S_=2, M=1, tag=None, nameplate="sym", crowd=0):
+    def make_bundle(self, S_=2, M=1, tag=None, nameplate="sym", crowd=0, relaxed=False):
         """fresh symbolic bundle (terms only; rows are loaded by load_prestate)"""
         e = self.e
         k = len(self.bundles)
@@ -440,16 +440,21 @@ class SymWorld:
             sd = Side()
             sd.s = s
             sd.side = e.sym_str("%s.side%d" % (tag, s))
-            sd.p = b.p if s == 0 else z3.And(prev, e.sym_bool("%s.ps%d" % (tag, s)))
+            if relaxed:
+                # crash-shaped: a mailbox may have no side row yet, a claim row may lack its mailbox side row
+                sd.p = z3.And(prev, e.sym_bool("%s.ps%d" % (tag, s)))
+            else:
+                sd.p = b.p if s == 0 else z3.And(prev, e.sym_bool("%s.ps%d" % (tag, s)))
             prev = sd.p
             sd.opened = e.sym_bool("%s.opened%d" % (tag, s))
             sd.added = e.sym_real("%s.added%d" % (tag, s))
             sd.mood_null = e.sym_bool("%s.moodnull%d" % (tag, s))
             sd.mood = e.sym_str("%s.mood%d" % (tag, s))
-            sd.np_p = z3.And(sd.p, b.has_np, e.sym_bool("%s.nps%d" % (tag, s)))
+            sd.np_p = z3.And(b.has_np if relaxed else z3.And(sd.p, b.has_np), e.sym_bool("%s.nps%d" % (tag, s)))
             sd.claimed = e.sym_bool("%s.claimed%d" % (tag, s))
             sd.np_added = e.sym_real("%s.npadded%d" % (tag, s))
             b.sides.append(sd)
+        b.relaxed = relaxed
         b.msgs = []
         for j in range(M):
             m = Side()
@@ -482,8 +487,13 @@ class SymWorld:
                                            z3.Not(z3.And(a.app.z == b.app.z, a.name.z == b.name.z)))))  # I2
             for x in range(len(b.sides)):
                 for y in range(x):
-                    e.assume(z3.Implies(z3.And(b.sides[x].p, b.sides[y].p),
+                    e.assume(z3.Implies(z3.And(z3.Or(b.sides[x].p, b.sides[x].np_p), z3.Or(b.sides[y].p, b.sides[y].np_p)),
                                         b.sides[x].side.z != b.sides[y].side.z))                 # I4/I5 keys
+            if getattr(b, "relaxed", False):
+                # INV_CRASH: a nameplate always has at least one side row (claim writes both at once)
+                e.assume(z3.Implies(b.has_np, z3.Or(*[s.np_p for s in b.sides])))
+                # distinct sides among claim rows too (they are no longer tied to the mailbox side slots)
+                continue
             e.assume(z3.Implies(b.p, z3.Or(*[z3.And(s.p, s.opened) for s in b.sides])))          # I5
             e.assume(z3.Implies(b.has_np, z3.Or(*[z3.And(s.np_p, s.claimed) for s in b.sides]))) # I4
         e.assume(self.next_npid.z >= 1)
@@ -520,6 +530,27 @@ class SymWorld:
         TAP.time = self.clock
         for c in self.conns:
             c.frames = []
+        self.pre = db.snapshot()
+        self.pre_usage = self.usage.snapshot() if self.usage else None
+        return self.pre
+
+    def load_snapshot(self, snap, next_npid=None):
+        """start from the committed content another run left behind (a crash state)"""
+        db = self.db
+        for t in CHANNEL_TABLES:
+            db.tables[t].rows = [r.copy() for r in snap.tables[t]]
+            db.tables[t].next_id = snap.next_id[t]
+        db.seal()
+        if self.usage is not None:
+            for t in self.usage.tables:
+                if t != "version":
+                    self.usage.tables[t].rows = []
+            self.usage.seal()
+        self.script.append(("load", db.snapshot(), self.usage.snapshot() if self.usage else None))
+        self.phase = "step"
+        self.clock = Clock(self)
+        WS.time = self.clock
+        TAP.time = self.clock
         self.pre = db.snapshot()
         self.pre_usage = self.usage.snapshot() if self.usage else None
         return self.pre
@@ -593,6 +624,7 @@ def inv_db_clauses(snap):
         s.v["nameplates_id"] == r.v["id"], s.v["claimed"] != 0)))
     c["mb_has_open"] = forall(mb, lambda r: exists(ms, lambda s: z3.And(
         s.v["mailbox_id"] == r.v["id"], s.v["opened"] != 0)))
+    c["np_has_side"] = forall(np_, lambda r: exists(ns, lambda s: s.v["nameplates_id"] == r.v["id"]))
     c["np_side_in_mb"] = forall(ns, lambda r: exists(np_, lambda n: z3.And(
         n.v["id"] == r.v["nameplates_id"],
         exists(ms, lambda s: z3.And(s.v["mailbox_id"] == n.v["mailbox_id"], s.v["side"] == r.v["side"])))))
@@ -604,6 +636,8 @@ PROPERTY_CLAUSES = ["uniq_mailbox_id", "uniq_nameplate_name", "uniq_nameplate_id
                     "npid_below_counter", "np_mailbox", "fk_nameplate_side", "fk_mailbox_side",
                     "msg_mailbox"]
 SUPPORT_CLAUSES = ["np_has_claim", "mb_has_open", "np_side_in_mb"]
+# what every *committed* state satisfies, including the ones between the commits of one operation
+CRASH_CLAUSES = PROPERTY_CLAUSES + ["np_has_side"]
 
 
 def slot_unchanged(a, b):
